@@ -536,6 +536,20 @@ func genChf(o genOpts, w *bufio.Writer) {
 		fmt.Fprintf(w, "chf create %s\n", fmtReq("imsi-1", "", 110, 0, 1, 0, nil, nil))
 		fmt.Fprintf(w, "chf create %s\n", fmtReq("imsi-111", "", 111, 0, 1, 0, nil, nil))
 		fmt.Fprintf(w, "chf create %s\n", fmtReq("imsi-1", "1", 112, 0, 1, 0, nil, nil))
+		// SUPIs that cannot name the subscriber's CDR file (path separator, NUL, too long) and their nearest neighbours
+		fmt.Fprintf(w, "chf reset\n")
+		accepted := 0
+		for k, sp := range []string{"imsi-1/2", "imsi-../../etc/passwd", "imsi-1\x002", "imsi-" + strings.Repeat("7", 247), "imsi-" + strings.Repeat("7", 246),
+			"imsi-/", "imsi-1\\2", "imsi-1.2", "imsi-.."} {
+			fmt.Fprintf(w, "chf create %s\n", fmtReq(sp, "smf", 100+k, 0, 1, 0, nil, nil))
+			ref := sp + "smf-" + strconv.Itoa(accepted)
+			if strings.ContainsAny(sp, "/\x00") {
+				ref = "ref-" + strconv.Itoa(k) // (a reference with a path separator does not reach the handler at all)
+			} else if len(sp) <= 251 {
+				accepted++
+			}
+			fmt.Fprintf(w, "chf update %s %s\n", hexOf([]byte(ref)), fmtReq(sp, "smf", 100+k, 1, 1, 0, nil, nil))
+		}
 		fmt.Fprintf(w, "chf reset\n")
 		for k, nf := range []string{"23", "3", "", "2"} {
 			fmt.Fprintf(w, "chf create %s\n", fmtReq([]string{"imsi-1", "imsi-12", "imsi-123", "imsi-1"}[k], nf, 100+k, 0, 1, 0, nil, nil))
